@@ -32,23 +32,23 @@ Fuel == 4000
 IsUnbound(s) == Len(s) >= 14 /\ SubSeq(s, 1, 14) = "stuck:unbound-"
 
 Nil == [acc |-> FALSE]
-Judge(i) ==
-  LET c == Cases[i]
-      tp == TypeProg(c.prog)
-  IN IF IsRej(tp) THEN [acc |-> FALSE, id |-> c.id, neg |-> c.negative, why |-> tp.why]
-     ELSE
-       LET r == Run(c.prog, Fuel)
-           status == IF r.sig = "ok" THEN "value"
-                     ELSE IF r.sig = "error" /\ r.v \in DocErrors THEN "error"
-                     ELSE IF r.sig = "error" /\ r.v \in Inconclusive THEN "inconclusive"
-                     ELSE "stuck"
-       IN [acc |-> TRUE, id |-> c.id, neg |-> c.negative, ty |-> Wire(tp.t),
-           status |-> status, sig |-> r.sig,
-           err |-> IF r.sig = "error" THEN r.v ELSE "",
-           member |-> IF r.sig = "ok" THEN MemberS(r.v, tp.t, r.st) ELSE TRUE,
-           cells |-> IF status = "stuck" THEN TRUE ELSE CellsTyped(r.st),
-           scoped |-> WellScoped(c.prog),
-           unbound |-> r.sig = "error" /\ IsUnbound(r.v)]
+\* r: the run of the accepted program c.prog of static type ty
+Status(r) == IF r.sig = "ok" THEN "value"
+             ELSE IF r.sig = "error" /\ r.v \in DocErrors THEN "error"
+             ELSE IF r.sig = "error" /\ r.v \in Inconclusive THEN "inconclusive"
+             ELSE "stuck"
+Accepted(c, ty, r) ==
+  [acc |-> TRUE, id |-> c.id, neg |-> c.negative, ty |-> Wire(ty),
+   status |-> Status(r), sig |-> r.sig,
+   err |-> IF r.sig = "error" THEN r.v ELSE "",
+   member |-> IF r.sig = "ok" THEN MemberS(r.v, ty, r.st) ELSE TRUE,
+   cells |-> IF Status(r) = "stuck" THEN TRUE ELSE CellsTyped(r.st),
+   scoped |-> WellScoped(c.prog),
+   unbound |-> r.sig = "error" /\ IsUnbound(r.v)]
+Verdict(c, tp) ==
+  IF IsRej(tp) THEN [acc |-> FALSE, id |-> c.id, neg |-> c.negative, why |-> tp.why]
+  ELSE Accepted(c, tp.t, Run(c.prog, Fuel))
+Judge(i) == Verdict(Cases[i], TypeProg(Cases[i].prog))
 
 Bad(tag) == PrintT(<<tag, ToJson(v)>>) /\ FALSE
 
@@ -233,11 +233,15 @@ GridAsg == [n \in 1..(Len(AsgOpSeq) * Len(AsgTargets) * NU) |->
                   b == ((n - 1) % NU) + 1
               IN G("asg" \o AsgOpSeq[o] \o ToString(a) \o "," \o ToString(b), <<Asg(AsgOpSeq[o], Un(a), Un(b))>>)]
 
-\* one-operand forms
+\* one-operand forms.  Two AST fields restate static facts for the evaluator (Lang.tla) and must be honest:
+\* the cell type of the untyped `mut a' and the element kind of `$+' / `$*' (which zero the fold starts from)
 Flt == Hide(WFloat, F(3))
+TyOf(a) == LET t == TypeProg(<<a>>) IN IF IsRej(t) THEN WAny ELSE Wire(t.t)
+EkOf(op, a) == LET t == TypeProg(<<RedE(op, "int", a)>>) IN
+               IF IsRej(t) THEN "int" ELSE IF t.t = TString THEN "string" ELSE IF t.t = TFloat THEN "float" ELSE "int"
 Forms(a) == <<
   <<"neg", <<NegE(a)>>>>, <<"not", <<NotE(a)>>>>, <<"deref", <<Deref(a)>>>>, <<"iter", <<IterE(a)>>>>,
-  <<"collect", <<CollectE(a)>>>>, <<"sum", <<RedE("$+", "int", a)>>>>, <<"product", <<RedE("$*", "int", a)>>>>,
+  <<"collect", <<CollectE(a)>>>>, <<"sum", <<RedE("$+", EkOf("$+", a), a)>>>>, <<"product", <<RedE("$*", EkOf("$*", a), a)>>>>,
   <<"bitand", <<RedE("$&", "int", a)>>>>, <<"bitor", <<RedE("$|", "int", a)>>>>,
   <<"all", <<RedE("$&&", "int", a)>>>>, <<"anyof", <<RedE("$||", "int", a)>>>>,
   <<"tfilter", <<TFilterE(a, WInt)>>>>, <<"tupat0", <<TupAt(a, 0)>>>>, <<"tupat1", <<TupAt(a, 1)>>>>, <<"tupat2", <<TupAt(a, 2)>>>>,
@@ -257,7 +261,7 @@ Forms(a) == <<
   <<"if", <<If1(a, Block(<<I(0)>>))>>>>, <<"if-else-value", <<If(Hide(WBool, B(TRUE)), Block(<<a>>), Block(<<I(0)>>))>>>>,
   <<"while", <<While(a, Block(<<Break>>))>>>>,
   <<"whileset", <<WhileSet("x", WInt, a, Block(<<Break>>))>>>>,
-  <<"mut-int", <<MutE(WInt, a)>>>>, <<"mut-int-float", <<MutE(WIF, a)>>>>, <<"mut-any", <<MutE(WAny, a)>>>>, <<"mut-untyped", <<MutU(WAny, a)>>>>,
+  <<"mut-int", <<MutE(WInt, a)>>>>, <<"mut-int-float", <<MutE(WIF, a)>>>>, <<"mut-any", <<MutE(WAny, a)>>>>, <<"mut-untyped", <<MutU(TyOf(a), a)>>>>,
   <<"return-int", <<Set("f", FnE(<<>>, WInt, <<Ret(a)>>)), I(0)>>>>,
   <<"return-int-float", <<Set("f", FnE(<<>>, WIF, <<Ret(a)>>)), I(0)>>>>,
   <<"return-void", <<Set("f", FnE(<<>>, WVoid, <<Ret(a)>>)), I(0)>>>>,
